@@ -27,6 +27,7 @@ type scriptOpts struct {
 	endWithJump int                                 // n > 0: a node body ends with a jump in n of n+1 cases
 	random      bool                                // use dice/random/random_range in lines, sets and conditions
 	extraStmt   func(g *scriptGen, depth int) *Stmt // property-specific statements
+	shadow      bool                                // sometimes later nodes repeat an earlier title (the first one wins everywhere; the copies never run)
 }
 
 type scriptGen struct {
@@ -121,6 +122,19 @@ func (g *scriptGen) lineText() []TextPart {
 	return parts
 }
 
+// plainLine: a line statement; now and then it carries an <<if>> condition, which means something on options only:
+// on a plain line it is neither evaluated nor obeyed.
+func (g *scriptGen) plainLine() *Stmt {
+	s := &Stmt{K: "line", Text: g.lineText(), Tags: g.tags()}
+	switch rapid.IntRange(0, 11).Draw(g.t, "linecond") {
+	case 0:
+		s.E = g.cond()
+	case 1:
+		s.E = rapid.SampledFrom([]*Expr{boolean(false), varRef("never_defined"), num("3"), not(varRef("f1"))}).Draw(g.t, "oddcond")
+	}
+	return s
+}
+
 func (g *scriptGen) tags() []string {
 	switch rapid.IntRange(0, 7).Draw(g.t, "tags") {
 	case 0:
@@ -212,7 +226,7 @@ func (g *scriptGen) stmt(depth int) *Stmt {
 	}
 	switch {
 	case kind <= 5:
-		return &Stmt{K: "line", Text: g.lineText(), Tags: g.tags()}
+		return g.plainLine()
 	case kind <= 8 && nested:
 		s := &Stmt{K: "opts"}
 		n := rapid.IntRange(1, 4).Draw(t, "nopts")
@@ -260,7 +274,7 @@ func (g *scriptGen) stmt(depth int) *Stmt {
 		return &Stmt{K: "jumpx", E: bin("+", str(""), str(g.jumpTarget()))}
 	case kind == 16:
 		if rapid.IntRange(0, 3-min(g.o.stopBias, 3)).Draw(t, "stop") == 0 {
-			return &Stmt{K: "stop"}
+			return g.stopStmt()
 		}
 		return &Stmt{K: "line", Text: g.lineText(), Tags: g.tags()}
 	case kind == 17:
@@ -280,10 +294,22 @@ func (g *scriptGen) stmt(depth int) *Stmt {
 		return &Stmt{K: "cmd", Words: words}
 	default:
 		if g.o.stopBias > 0 && depth > 0 && rapid.IntRange(0, 2).Draw(t, "stopb") == 0 {
-			return &Stmt{K: "stop"}
+			return g.stopStmt()
 		}
 		return &Stmt{K: "line", Text: g.lineText(), Tags: g.tags()}
 	}
+}
+
+// stopStmt: <<stop>>, sometimes spelled with further words or with the name computed (it ends the dialogue all the same
+// and is never dispatched to a handler).
+func (g *scriptGen) stopStmt() *Stmt {
+	switch rapid.IntRange(0, 5).Draw(g.t, "stopform") {
+	case 0:
+		return &Stmt{K: "cmd", Words: []TextPart{{S: "stop"}, {S: "now"}}}
+	case 1:
+		return &Stmt{K: "cmd", Words: []TextPart{{S: "stop"}, {E: varRef("k1")}, {S: "please"}}}
+	}
+	return &Stmt{K: "stop"}
 }
 
 var nodeTitlePool = []string{"A", "B", "C", "D", "E", "Node_6", "g7"}
@@ -335,6 +361,17 @@ func genScript(t *rapid.T, o scriptOpts) *Script {
 			nodes[i].Body = append(nodes[i].Body, &Stmt{K: "set", Var: "dest", Op: "=", E: str(next)}, &Stmt{K: "jump", Target: g.titles[0]})
 		}
 	}
+	var shadows []*Node
+	if o.shadow && rapid.IntRange(0, 3).Draw(t, "shadow") == 0 {
+		for i := 0; i < rapid.IntRange(1, 2).Draw(t, "shadows"); i++ {
+			orig := nodes[rapid.IntRange(0, n-1).Draw(t, "shadowed")]
+			cp := &Node{Title: orig.Title, Tracking: "never", Body: []*Stmt{{K: "line", Text: []TextPart{{S: "in the shadowed copy of " + orig.Title}}}, {K: "jump", Target: g.titles[0]}}}
+			if orig.Tracking == "never" {
+				cp.Tracking = rapid.SampledFrom([]string{"", "always"}).Draw(t, "shadowtracking")
+			}
+			shadows = append(shadows, cp)
+		}
+	}
 	// distribute over 1-3 readers
 	sc := &Script{}
 	k := rapid.IntRange(1, min(3, n)).Draw(t, "readers")
@@ -349,6 +386,13 @@ func genScript(t *rapid.T, o scriptOpts) *Script {
 			f++
 		}
 		sc.Files[f] = append(sc.Files[f], node)
+	}
+	if len(shadows) > 0 {
+		if rapid.Bool().Draw(t, "shadowreader") {
+			sc.Files = append(sc.Files, shadows)
+		} else {
+			sc.Files[len(sc.Files)-1] = append(sc.Files[len(sc.Files)-1], shadows...)
+		}
 	}
 	return sc
 }
